@@ -1,4 +1,5 @@
 import GitSizer.Proofs.History
+import GitSizer.Proofs.PathRes.Driver
 import GitSizer.Proofs.PathRes.Ops
 import GitSizer.Gen.Cmds
 import GitSizer.Proofs.GenStrs
@@ -109,6 +110,30 @@ theorem record_ops_never_panic (e : Env) (hok : EnvOK e) (ops : List Spec.Op) (h
     obtain ⟨s2, h2, _⟩ := recordCommit_inv hok inv c t h.1 h.2
     exact ⟨s2, h2⟩
 
+/-! ### the whole scan: the facts graph.go reports are true, hence every description resolves -/
+
+open GitSizer.PathRes in
+/-- **For every repository git accepts (`RepoOK`: entry modes agree with the objects, names non-empty,
+    without '/', not repeated — what fsck enforces), every object listing, every set of roots that git
+    resolved, and every interleaving of the scan's facts (`Spec.scanFacts`: all entries of the listed
+    trees except submodule links, the tree of every listed commit, the walked roots' names) with
+    requests of the right kind and forgets: every description the resolver prints denotes its object.**
+    This discharges the `OpOK` hypothesis of `descriptions_resolve` for the calls that graph.go makes
+    (which calls those are is regenerated and pinned: `resolver_calls_pinned`,
+    `tree_entries_reported_except_submodules`, `names_of_walked_roots`). -/
+theorem scan_descriptions_resolve (e : Env) (hok : EnvOK e) (hr : Spec.RepoOK e.r) (listing : List Nat)
+    (roots : List (Bytes × Nat)) (hroots : ∀ nr ∈ roots, resolve e.r e.atom nr.1 = some nr.2)
+    (ops : List Spec.Op) (hops : ∀ op ∈ ops, Spec.ScanOp e listing roots op)
+    (st : State) (hrun : run ops = Res.ok st) (i : Nat) (rec : PathRec) (h : st.arena[i]? = some rec) :
+    pathString e.hex st i = e.hex rec.oid ∨
+    ∃ d, pathString e.hex st i = e.hex rec.oid ++ [32, 40] ++ d ++ [41] ∧ resolve e.r e.atom d = some rec.oid :=
+  descriptions_resolve e hok ops (fun op hop => Spec.scanOp_ok e hr listing roots hroots op (hops op hop)) st hrun i rec h
+
+/-- the facts themselves, for reference: each satisfies the consistency predicate -/
+theorem scan_facts_consistent (e : Spec.Env) (hr : Spec.RepoOK e.r) (listing : List Nat) (roots : List (Bytes × Nat))
+    (hroots : ∀ nr ∈ roots, resolve e.r e.atom nr.1 = some nr.2) :
+    ∀ op ∈ Spec.scanFacts e.r listing roots, Spec.OpOK e op := Spec.scan_facts_ok e hr listing roots hroots
+
 /-! ### the calls that feed the resolver (REGENERATED from sizes/graph.go and sizes/sizes.go)
 
 `descriptions_resolve` assumes that every operation reports a true fact (`OpOK`). What the code
@@ -212,6 +237,42 @@ theorem splitTop_mem_colon : ∀ (s : Bytes) (d : Nat) (rp : Bytes × Bytes), sp
         · cases h2 : splitTop d cs with
           | none => rw [h2] at h; cases h
           | some x => exact List.mem_cons_of_mem _ (ih _ _ h2)
+
+/-- non-vacuity of `scan_descriptions_resolve`: the witness repository meets `RepoOK` -/
+theorem wRepo_ok : Spec.RepoOK wRepo := by
+  have hent : ∀ t en, en ∈ wRepo.entries t →
+      (t = 1 ∧ en = ⟨0o100644, [123, 125], 0⟩) ∨ (t = 3 ∧ en = ⟨0o160000, [115, 117, 98], 2⟩) := by
+    intro t en h
+    match t with
+    | 0 => simp [Repo.entries, Repo.obj, wRepo] at h
+    | 1 => left; simpa [Repo.entries, Repo.obj, wRepo] using h
+    | 2 => simp [Repo.entries, Repo.obj, wRepo] at h
+    | 3 => right; simpa [Repo.entries, Repo.obj, wRepo] using h
+    | 4 => simp [Repo.entries, Repo.obj, wRepo] at h
+    | n + 5 => simp [Repo.entries, Repo.obj, wRepo] at h
+  refine ⟨?_, ?_, ?_, ?_, ?_⟩
+  · intro i j hj
+    match i with
+    | 0 => simp [Repo.edges, Repo.obj, wRepo] at hj
+    | 1 => simp [Repo.edges, Repo.obj, wRepo, Entry.kind] at hj; omega
+    | 2 => simp [Repo.edges, Repo.obj, wRepo] at hj; omega
+    | 3 => simp [Repo.edges, Repo.obj, wRepo, Entry.kind] at hj
+    | 4 => simp [Repo.edges, Repo.obj, wRepo] at hj; omega
+    | n + 5 => simp [Repo.edges, Repo.obj, wRepo] at hj
+  · intro t en h hk
+    rcases hent t en h with ⟨_, rfl⟩ | ⟨_, rfl⟩ <;> simp [Entry.kind] at hk
+  · intro t en h hk
+    rcases hent t en h with ⟨_, rfl⟩ | ⟨_, rfl⟩
+    · decide
+    · rcases hk with hk | hk <;> simp [Entry.kind] at hk
+  · intro t en h
+    rcases hent t en h with ⟨_, rfl⟩ | ⟨_, rfl⟩ <;> decide
+  · intro t en en' h h' _
+    rcases hent t en h with ⟨rfl, rfl⟩ | ⟨rfl, rfl⟩ <;> rcases hent _ en' h' with ⟨ht, rfl⟩ | ⟨ht, rfl⟩ <;> first | rfl | omega
+
+/-- and its facts are what one expects: the entry of tree 1, the trees of both commits, one root -/
+example : Spec.scanFacts wRepo [4, 3, 2, 1, 0] [([72, 69, 65, 68], 4)] =
+    [.entry 1 [123, 125] 0, .commit 4 3, .commit 2 1, .name [72, 69, 65, 68] 4] := by rfl
 
 theorem wEnv_ok : EnvOK ⟨wRepo, wAtom, wHex⟩ := by
   constructor
